@@ -3,7 +3,7 @@
 (* Behaviour generator for CacheAside.tla (spec -> code replay, C06).      *)
 (*                                                                         *)
 (* A generated behaviour is                                                *)
-(*   init record (initial database, jitter choice)                         *)
+(*   init record (initial database, jitter choice, expiry configuration)   *)
 (*   at most MaxOps operations out of Ops (names of operations offered)    *)
 (*   a "finish" step: every node becomes reachable again and time advances *)
 (*      past every pending retry plus TailTicks further seconds (so that a *)
@@ -40,7 +40,7 @@ AuditOps == [i \in 1..Len(AuditIds) |-> [op |-> "qrow", id |-> AuditIds[i]]]
             \o [i \in 1..Len(AuditNames) |-> [op |-> "qindex", name |-> AuditNames[i]]]
 
 GInit == /\ Init
-         /\ hist = <<[op |-> "init", jit |-> s.jit,
+         /\ hist = <<[op |-> "init", jit |-> s.jit, cfg |-> s.cfg,
                       db |-> {RowOut(i, s.db[i]) : i \in {x \in Ids : s.db[x] # NoRow}}]>>
          /\ nops = 0 /\ ndown = 0 /\ fin = FALSE /\ aud = 0
 
